@@ -171,7 +171,15 @@ class Connection(BaseProtocol):
             self.transport.close()
             return
 
-        self.authenticate(ident, secret, akrow)
+        try:
+            self.authenticate(ident, secret, akrow)
+        except Exception:
+            # With a synchronous store an exception raised while handling the
+            # messages queued behind OP_AUTH escapes data_received and asyncio
+            # drops the connection. Do the same here instead of leaving it to
+            # the event loop's exception handler.
+            log.exception("Unhandled exception handling messages queued behind OP_AUTH")
+            self.transport.close()
 
     def authenticate(self, ident, secret, akrow):
         if not akrow:
